@@ -89,6 +89,16 @@ theorem put_data_panic_only_on_caller_ids (n c : Nat) (hc : 0 < c) (ops : List (
 /-- a panicking call never changes the capacity, nor does any other -/
 theorem capacity_is_fixed (g : G L D) (op : Op L D) : cap (stepT g op).1 = cap g := cap_stepT g op
 
+/-- **`merge` too**: the left graph satisfies the memory-safety invariant after `merge` whether the call returns `Ok`,
+    returns `Err`, or panics half-way through its `put`/`next_id`/`add`/`bind` calls (`mergeT`, Core/TotalProg.lean: the
+    program of `merge` interpreted over the total step; equal to `merge` wherever `merge` answers). Not covered: merges
+    that reach `join` (non-tree right graphs, outside `merge`'s documented precondition and outside the model). -/
+theorem merge_keeps_indices_in_range (g h : G L D) (hg : MS g) (left right : Nat) : MS (mergeT g h left right).1 :=
+  ms_mergeT g h hg left right
+
+theorem mergeT_agrees (g h g' : G L D) (left right : Nat) (out : MergeOut) (hm : merge g h left right = some (g', out)) :
+    mergeT g h left right = (g', some out) := mergeT_of_merge g h g' left right out hm
+
 /-! non-vacuity: a concrete abusive history (labels and data are `Nat`): the 17-th member panics after its tag was
     written; the handle goes on; puts on the half-joined vertex are counted for the group, so the group dies at the
     second read and leaves the half-joined vertex behind, tagged with a group it is not a member of; an id beyond the
